@@ -56,6 +56,12 @@ CLAIMS = {
   "Decides the documented matching rules as the shape of MinifyMimetype/Match/Minify and of the registrars (R15.1-R15.4, DESIGN.md §4 C15): literal lookup first, then patterns in registration order, else ErrNotExist with the writer untouched; "
   "Match has the identical plan; parameters from parse.Mediatype are forwarded; literal registration replaces, pattern registration appends. Go map/regexp/parse.Mediatype semantics are trusted.",
   OTHER_NOTE, "DESIGN.md §4 C15"),
+ "C16": ("other",
+  "gate-domination with call-site lifting for version-dependent syntax, flag/field binding comparison, reachability under an assumed option value on the CFG (worlds search)",
+  "Decides three structural clauses (R16.1-R16.3, DESIGN.md §4 C16): every generation site of post-ES5 syntax is pass-through or behind minVersion(c≥edition) (possibly lifted to call sites or via a boolean parameter); "
+  "every CLI option flag is bound to the field it names, on the struct that is registered; for a frozen table of (option, effect) instances the effect is unreachable when the option is set (comments: the verbatim write is unavoidable), and every option field is read. "
+  "`Nothing else changes` per option, precision semantics and option interactions are not decided.",
+  OTHER_NOTE, "DESIGN.md §4 C16"),
  "C17": ("proof",
   "constant-table evaluation from the type-checked syntax tree, compared entry by entry with reference tables",
   "Every entry of every built-in rewrite table (entities, colours, units, tag/attribute traits, MIME types, perfect-hash files) is evaluated from "
